@@ -70,6 +70,7 @@ Proof.
   - eapply count_Qrel; eauto. eapply step_OnceSkip_Q; eauto.
   - eapply step_Callback_count; eauto.
   - eapply step_SendC_count; eauto.
+  - eapply count_Qrel; eauto. eapply step_SrcSetupFail_Q; eauto.
 Qed.
 
 Theorem count_inv_run : forall nt T sch s s', inv_count nt s -> run nt T s sch = Ok s' -> inv_count nt s'.
@@ -151,6 +152,7 @@ Proof.
   destruct a;
     try (apply Q; first [eapply step_SrcReturnNil_Q; eassumption
                         |eapply step_SrcReturnErr_Q; eassumption
+                        |eapply step_SrcSetupFail_Q; eassumption
                         |eapply step_SrcRestart_Q; eassumption
                         |eapply step_MainSeeClosed_Q; eassumption
                         |eapply step_MainWgDone_Q; eassumption
@@ -211,7 +213,7 @@ Proof.
   change (cb_ok (e :: p)) with ((match e with TCb _ _ OLater => false | _ => true end) && cb_ok p) in H.
   apply andb_true_iff in H. destruct H as [H1 H2]. specialize (IH H2).
   rewrite rets_cons, cbacks_cons, laters_cons, n_proc_cons, n_filt_cons, n_fail_cons, !app_length.
-  destruct e as [| | | | |m it|m it o|m it o| | |]; simpl; try lia.
+  destruct e as [| | | | |m it|m it o|m it o| | | |]; simpl; try lia.
   - destruct o as [[|e es]|err|]; destruct (m =? n); simpl; lia.
   - destruct o as [[|e es]|err|]; try discriminate; destruct (m =? n); simpl; lia.
 Qed.
